@@ -34,7 +34,7 @@ Proof. exact env_default_iff. Qed.
 Print Assumptions C17_env_default_iff.
 
 Theorem C17_env_value_sound : forall s min v, (0 <= min)%Z -> parse_or_default s min = EnvValue v ->
-  exists n, parse_uint0 s = POk n /\ v = Z.of_N n /\ (min < v < 9223372036854775808)%Z.
+  exists n, parse_uint0 s = UOk n /\ v = Z.of_N n /\ (min < v < 9223372036854775808)%Z.
 Proof. exact env_value_sound. Qed.
 Print Assumptions C17_env_value_sound.
 
